@@ -410,6 +410,27 @@ def run(rep, prog, tier):
     if not n_ok:
         raise AnalysisError('PubKeyV4.parse never returns')
 
+    # C18.3 (fallback container): the key material of an algorithm without a class is an opaque octet string; what the fingerprint
+    # hashes is `__bytearray__()[:publen()]`, so publen() must be the number of octets the container holds.  Decided by
+    # finite-point evaluation (sa.ceval): parse 40 arbitrary octets, then compare publen() with what is serialised.
+    from sa import ceval as _ceval
+    fbk = prog.module('pgpy.packet.fields').classes.get(tables.keymaterial_fallbacks(prog)[True])
+    if fbk is None:
+        raise AnalysisError('public fallback key material class vanished')
+    try:
+        _ev = _ceval.Evaluator(prog)
+        _o = _ev.new(fbk)
+        _ev.method(_o, 'parse', _ceval.VBuf(bytes(range(40))))
+        _n = _ev.method(_o, 'publen')
+        _b = _ev.method(_o, '__bytearray__')
+        _blen = _ev.length(_b)
+    except (_ceval.NoEval, _ceval.Raised, _ceval.Diverged) as e:
+        raise AnalysisError('%s: parse / publen / __bytearray__ cannot be evaluated: %s' % (fbk.name, e))
+    pl = fbk.find_method('publen')
+    rep.check(_n == 40 and _blen == 40, 'C18.3', '%s.publen' % fbk.name, 'publen() = %r for 40 octets of material, %r serialised' % (_n, _blen),
+              'the fingerprint hashes __bytearray__()[:publen()]: for the container of an unimplemented algorithm publen() must be the '
+              'number of octets it holds, or the fingerprint covers none of the key material', where=(pl or fbk).where,
+              expected={'publen': 40, 'serialised': 40}, found={'publen': _n, 'serialised': _blen})
     # C18.3 publen: the length term computed for a private object is the term its public sibling's __len__ computes
     f, tbl = tables.keymaterial_table(prog)
     fields = prog.module('pgpy.packet.fields')
